@@ -369,24 +369,19 @@ func (b *band) GetUplinkChannelIndex(frequency uint32, defaultChannel bool) (int
 
 func (b *band) GetUplinkChannelIndexForFrequencyDR(frequency uint32, dr int) (int, error) {
 	for _, defaultChannel := range []bool{true, false} {
-		i, err := b.GetUplinkChannelIndex(frequency, defaultChannel)
-		if err != nil {
-			continue
-		}
+		for i, c := range b.uplinkChannels {
+			if frequency != c.Frequency || c.custom == defaultChannel {
+				continue
+			}
 
-		c, err := b.GetUplinkChannel(i)
-		if err != nil {
-			return 0, errors.Wrap(err, "get channel error")
+			// there could be multiple channels using the same frequency, but with different data-rates.
+			// eg EU868:
+			//  channel 1 (868.3 DR 0-5)
+			//  channel x (868.3 DR 6)
+			if c.MinDR <= dr && c.MaxDR >= dr {
+				return i, nil
+			}
 		}
-
-		// there could be multiple channels using the same frequency, but with different data-rates.
-		// eg EU868:
-		//  channel 1 (868.3 DR 0-5)
-		//  channel x (868.3 DR 6)
-		if c.MinDR <= dr && c.MaxDR >= dr {
-			return i, nil
-		}
-
 	}
 
 	return 0, fmt.Errorf("no channel found for frequency: %d, dr: %d", frequency, dr)
